@@ -22,7 +22,7 @@ A3 = ("The broker talks to the server only through the harness's SimClient (the 
 
 CHECKS = {
   "C16": ("E4 strategy", "seeded simulation of the strategy loop with a request budget (bounded liveness) and a wire-fed ledger",
-          "The real StaticWeightStrategy runs its own while-has_next loop (a request budget turns a loop that never ends into a finite, replayable violation) or is stepped by the harness with withdrawals interleaved; the history must have exactly N snapshots dated by the clock after each tick, portfolio_value must equal the broker's total value (stepped) and the wire-fed ledger valuation (own loop), net_cash_flow must equal deposits - successful withdrawals, and in constant-price zero-spread worlds every snapshot must equal the deposit.",
+          "The real StaticWeightStrategy runs its own while-has_next loop (a request budget turns a loop that never ends into a finite, replayable violation) or is stepped by the harness with withdrawals interleaved; transport faults (lost insert / tick requests, lost tick / quote responses) are injected under a per-operation fault budget; the history must have exactly N snapshots (plus one per tick request the transport lost) dated by the server clock after each tick attempt, portfolio_value must equal the broker's total value (stepped) and the wire-fed ledger valuation (own loop), net_cash_flow must equal deposits - successful withdrawals, and in constant-price zero-spread worlds every snapshot must equal the deposit.",
           A3, "5/E4/C16"),
   "C20": ("E2 wire twin", "seeded differential simulation: in-process twin vs in-memory actix JSON service",
           "The same interleaved request sequence (all seven Uist / six Jura routes, unknown backtests and datasets, JSON edge values, non-ASCII symbols, client-set order ids) is applied to an in-process AppState and to the real actix handlers behind an in-memory service; status, decoded bodies (1e-12 on floats) and the state digests behind both are compared after every request; Order/Trade/Fill/quote round trips are checked; on Uist the library's own TestClient is driven as a third twin through the same history.",
